@@ -190,6 +190,14 @@ impl Prop for C01 {
             let rest = (k as u16 * 7 + 3) % 8; // loops / missing / loop strategy bits
             let spec = directed | multi << 1 | ((rest & 1) as u8) << 2 | ((dedupe + 3 * ((rest >> 1) & 1) as u8 + 6 * ((rest >> 2) & 1) as u8) << 3);
             v.push(HistCase { universe: 8, spec, wmode: 1, ctor: None, ops: crate::huge::huge_ops(0xC0FFEE + k as u64), huge: 1 });
+            // the same policies on a universal hub whose edges arrived in four different orders
+            for star in 4..=7u8 {
+                v.push(HistCase { universe: 8, spec, wmode: 1, ctor: None, ops: crate::huge::huge_ops(0xBEEF + k as u64 * 8 + star as u64), huge: star });
+            }
+        }
+        // one batch of thousands of edges with a failing element in the middle
+        for spec in 0..96u8 {
+            v.push(HistCase { universe: spec % 4, spec, wmode: 1, ctor: None, ops: vec![Op::AddNode(0, None)], huge: 3 });
         }
         v
     }
